@@ -17,10 +17,12 @@ OCAML_PACKAGES = ['coq-core.kernel']
 OCAML_FLAGS = '-rectypes -thread'
 HS_TOL = 8 * 2.0 ** -23          # hillshade: 8 ulp(1.0f) absolute
 
-RULE = ('elevation rasters 1x1 .. 7x7 of every dtype uint8..uint64/int8..int64/float32/float64 from the classes flat, ramps, '
+RULE = ('elevation rasters 1x1 .. 7x7 (plus large-ish ones up to 24x24 quick / 60x60 thorough, Fortran-ordered / strided / '
+        'negative-stride layouts, dimension names y,x / lat,lon / row,col / x,y) of every dtype uint8..uint64/int8..int64/float16/float32/float64 from the classes flat, ramps, '
         'small integers with ties, random floats, values >= 2^24, NaN/+-inf cells; cell size from res = scalar / (x,y) tuple / '
         'list / ndarray / unusable / absent with ascending or descending, integer or fractional coordinates, cx != cy; '
-        'hillshade azimuth/altitude grids; the same stream Dask-backed (every dtype x single chunk / 1-cell chunks / uneven '
+        'hillshade azimuth/altitude grids incl. negative, > 360, random reals and the defaults left unset, name= given; cell sizes 1e-6 .. 1e5, '
+        'uneven coordinates (mean spacing); the same stream Dask-backed (every dtype x single chunk / 1-cell chunks / uneven '
         'chunks, results computed and compared exactly like the NumPy ones; groups of 12 lazy results — four functions x '
         '(raster, same raster with another cell size / other angles, poked raster) — evaluated in ONE dask.compute); plus, on the implementation, the property\'s metamorphic checks: constant offset, '
         'single-cell poke (to NaN or another value), quarter turn with square cells. A case is non-trivial when the raster has '
@@ -32,7 +34,8 @@ TRUSTED = [
     'libm atan, atan2, sin, cos are Section variables supplied by the OCaml driver (Stdlib); `(...) ** .5` in slope is modelled as '
     'the correctly rounded sqrt (LLVM folds pow(x, 0.5) to sqrt)',
     'hillshade: NumPy\'s own vectorised float32 arctan/arctan2/sin/cos are modelled as the libm double function rounded to '
-    'float32; compared within 8 ulp(1.0f) = 9.5e-7 absolute',
+    'float32; compared within 8 ulp(1.0f) = 9.5e-7 absolute, times max(1, |azimuthrad|/4) because the shading angle '
+    '(azimuthrad - pi/2) - aspect is a float32 whose ulp grows with |azimuth|; range [0,1] checked up to the same 8 ulp',
     'the literals 57.29578 (slope) and RADIAN = 180/pi (aspect) are read from the source / module at run time and passed to the model',
     'xarray default integer index when a dimension has no coordinate; coordinate min/max modelled as folds',
     'exact instance premises (Section hypotheses, not discharged): qsqrt 0 = 0 and qsqrt x >= 0; atan 0 = 0; 0 <= atan x and '
@@ -46,10 +49,13 @@ TRUSTED = [
 ASSUMPTIONS = [
     'NumPy and Dask(NumPy) backends; the model is the NumPy kernel, a Dask result must equal it (CuPy not available here)',
     'a Dask-backed hillshade of a raster with < 2 cells along an axis returns all NaN (padded blocks) where NumPy raises; oracle only',
-    'cell sizes are positive Python ints/floats (a zero cell size raises ZeroDivisionError in the Numba kernels)',
+    'cell sizes are positive Python ints/floats (a zero cell size raises ZeroDivisionError in the Numba kernels; a NEGATIVE res '
+    'such as (30, -30) — common in geotransforms — makes curvature divide by (cx+cy)/2 = 0 or use a meaningless mean: outside the domain)',
+    'for unevenly spaced coordinates "the cell size" is the mean spacing (max-min)/(n-1), which is what utils.calc_res computes',
     'rasters without a usable res attribute have >= 2 cells per dimension (calc_res divides by n-1)',
     'hillshade rasters have >= 2 cells per dimension (np.gradient requirement; smaller rasters raise ValueError, modelled as error)',
     'hillshade and aspect ignore the cell size by design (documented formulas)',
+    'rasters have at least one cell (empty 0xN rasters give empty slope/aspect/curvature and a ValueError from hillshade: not explored)',
 ]
 PARTIAL = [
     'aspect / slope / curvature under np.rot90 are proved in the exact instance only (C08_aspect_quarter_turn, C08_rot90_raster, '
@@ -74,7 +80,7 @@ LEVEL_NOTE = ('kernels are written once over an arithmetic record; locality theo
               'instance; algebraic theorems are about the exact instance; libm functions are Section variables / hypotheses')
 
 INT_DT = ['uint8', 'uint16', 'uint32', 'uint64', 'int8', 'int16', 'int32', 'int64']
-ALL_DT = INT_DT + ['float32', 'float64', 'float64', 'float32']
+ALL_DT = INT_DT + ['float32', 'float64', 'float64', 'float32', 'float16']
 
 
 def mods():
@@ -135,8 +141,9 @@ def cell_sizes_oracle(case):
         return Fraction(r['v'][0]), Fraction(r['v'][1])
     if r['kind'] == 'scalar':
         return Fraction(r['v']), Fraction(r['v'])
-    xs, ys = case['xs'], case['ys']
-    return abs(Fraction(xs[1]) - Fraction(xs[0])), abs(Fraction(ys[1]) - Fraction(ys[0]))
+    # (for evenly spaced coordinates this is the spacing; for uneven ones the mean spacing)
+    xs, ys = [Fraction(v) for v in case['xs']], [Fraction(v) for v in case['ys']]
+    return (max(xs) - min(xs)) / (len(xs) - 1), (max(ys) - min(ys)) / (len(ys) - 1)
 
 
 def window(data32, y, x):
@@ -191,8 +198,8 @@ def expect_interior(fn, w, cx, cy, params):
         ee = (f + d) / 2 - e
         val = -2 * (dd + ee) * 100 / (cs * cs)
         tol = Fraction(8, 2 ** 24) * 200 * (abs(h) + abs(b) + abs(f) + abs(d) + 2 * abs(e)) / (cs * cs) + abs(val) * Fraction(4, 2 ** 24)
-        if abs(val) > 2 ** 120 or tol > 2 ** 120:
-            return ('skip',)
+        if abs(val) > 2 ** 120 or tol > 2 ** 120 or scale > 2 ** 120:
+            return ('skip',)          # float32 overflow of data[y+1,x] + data[y-1,x] (values near the float32 maximum)
         return ('val', float(val), float(tol) + 1e-300)
     # hillshade (GeoExamples formula the docstring cites), unit spacing
     az, alt = params['azimuth'], params['altitude']
@@ -206,7 +213,13 @@ def expect_interior(fn, w, cx, cy, params):
     altr = alt * math.pi / 180.0
     shaded = math.sin(altr) * math.sin(slope) + math.cos(altr) * math.cos(slope) * math.cos((azr - math.pi / 2) - aspect)
     # the float32 aspect / slope of the implementation move the value by a few float32 ulps of the angle
-    return ('val', (shaded + 1) / 2, 4e-6)
+    return ('val', (shaded + 1) / 2, 4e-6 * angle_factor(az))
+
+
+def angle_factor(az):
+    """hillshade evaluates cos((azimuthrad - pi/2) - aspect) on a FLOAT32 angle: its rounding error is half an ulp of the
+    angle, so the tolerance grows with |azimuthrad| (1 for the usual 0..360 degrees)"""
+    return max(1.0, abs((360.0 - az) * math.pi / 180.0) / 4.0)
 
 
 def ang_close(a, b, tol):
@@ -263,7 +276,7 @@ def oracle_raster(ctx, case, fn, out, params=None):
             if fn == 'aspect' and not (o == -1.0 or 0.0 <= o <= 360.0):
                 ctx.violation('oracle', 'aspect: %r outside {-1} u [0,360]' % o, rep)
                 return False
-            if fn == 'hillshade' and not (0.0 <= o <= 1.0):
+            if fn == 'hillshade' and not (-HS_TOL <= o <= 1.0 + HS_TOL):      # sin^2 + cos^2 of float32 values is 1 up to rounding
                 ctx.violation('oracle', 'hillshade: %r outside [0,1]' % o, rep)
                 return False
     return True
@@ -305,6 +318,9 @@ def gen_value(rng, dt, kind):
     if dt == 'float32':
         with np.errstate(all='ignore'):
             v = float(np.float32(v))
+    if dt == 'float16':
+        with np.errstate(all='ignore'):
+            v = float(np.float16(v))
     return v
 
 
@@ -344,7 +360,7 @@ def gen_geometry(rng, rows, cols, allow_mixed=True, allow_int=True):
     raster dtype (~0.5 s each), so mixed pairs are drawn only where [allow_mixed] (float64 rasters)"""
     u = rng.random()
     ints = [1, 2, 3, 10, 30]
-    flts = [1.0, 0.5, 2.0, 0.25, 30.0, 3.7, 0.1, 12.5]
+    flts = [1.0, 0.5, 2.0, 0.25, 30.0, 3.7, 0.1, 12.5, 1e-3, 1e-6, 1e5, 2.0 ** -20, 1234.5678]
     if not allow_int:
         ints = [1.0, 2.0, 3.0, 10.0, 30.0]
     res = dict(kind='absent')
@@ -356,8 +372,8 @@ def gen_geometry(rng, rows, cols, allow_mixed=True, allow_int=True):
             b = rng.choice(ints) if isinstance(a, int) else rng.choice(flts)
         if rng.random() < 0.2:
             b = a
-        form = rng.choice(['tuple', 'tuple', 'list', 'ndarray'])
-        if form == 'ndarray':
+        form = rng.choice(['tuple', 'tuple', 'list', 'ndarray', 'npfloat'])
+        if form in ('ndarray', 'npfloat'):
             a, b = float(a), float(b)
         res = dict(kind='pair', v=[a, b], form=form)
     elif u < 0.68:
@@ -375,6 +391,9 @@ def gen_geometry(rng, rows, cols, allow_mixed=True, allow_int=True):
             ys = [y0 + i * dy for i in range(rows)]
         else:
             ys = [float(y0) + i * float(dy) for i in range(rows)]
+        if rng.random() < 0.12:            # unevenly spaced coordinates: the code (and the oracle) use the mean spacing
+            xs = [v + (rng.random() - 0.5) * 0.4 * float(dx) * (0 < i < cols - 1) for i, v in enumerate(xs)]
+            ys = [v + (rng.random() - 0.5) * 0.4 * float(dy) * (0 < i < rows - 1) for i, v in enumerate(ys)]
         if rng.random() < 0.5:
             ys = ys[::-1]
         if rng.random() < 0.25:
@@ -424,12 +443,24 @@ def make_agg(case, data=None):
         attrs['res'] = (1, 2, 3)
     elif form == 'npint':
         attrs['res'] = (np.int64(2), np.int64(3))
+    if r['kind'] == 'pair' and form == 'npfloat':
+        attrs['res'] = (np.float64(r['v'][0]), np.float64(r['v'][1]))
+    ydim, xdim = case.get('dims') or ['y', 'x']
     coords = {}
     if case['coords']:
-        coords = {'y': np.array(case['ys']), 'x': np.array(case['xs'])}
+        coords = {ydim: np.array(case['ys']), xdim: np.array(case['xs'])}
+    lay = case.get('layout')
+    if lay == 'F':
+        a = np.asfortranarray(a)
+    elif lay == 'view' and rows and cols:          # a strided, non-contiguous view
+        big = np.zeros((2 * rows, 2 * cols), dtype=a.dtype)
+        big[::2, ::2] = a
+        a = big[::2, ::2]
+    elif lay == 'neg' and rows and cols:           # negative strides
+        a = a[::-1, ::-1].copy()[::-1, ::-1]
     if case.get('chunks') is not None:
         a = wrap_dask(a, case['chunks'])
-    return xr.DataArray(a, dims=['y', 'x'], coords=coords, attrs=attrs, name='terrain')
+    return xr.DataArray(a, dims=[ydim, xdim], coords=coords, attrs=attrs, name='terrain')
 
 
 def wrap_dask(a, chunks):
@@ -535,7 +566,8 @@ def compare_model(ctx, pending):
             continue
         for i, (a, b) in enumerate(zip(impl, mv)):
             if fn == 'hillshade':
-                ok = (math.isnan(a) and math.isnan(b)) or (not math.isnan(a) and not math.isnan(b) and abs(a - b) <= HS_TOL)
+                ok = (math.isnan(a) and math.isnan(b)) or (not math.isnan(a) and not math.isnan(b) and
+                                                           abs(a - b) <= HS_TOL * angle_factor(params['azimuth']))
             else:
                 ok = same_bits(a, b)
             if not ok:
@@ -546,19 +578,41 @@ def compare_model(ctx, pending):
 
 # ---------------------------------------------------------------- running the implementation
 def run_fn(m, fn, agg, params=None):
+    kw = {}
+    if params and params.get('name'):
+        kw['name'] = params['name']
     with np.errstate(all='ignore'):
         if fn == 'slope':
-            return m['slope'].slope(agg)
-        if fn == 'aspect':
-            return m['aspect'].aspect(agg)
-        if fn == 'curvature':
-            return m['curvature'].curvature(agg)
-        return m['hillshade'].hillshade(agg, azimuth=params['azimuth'], angle_altitude=params['altitude'])
+            res = m['slope'].slope(agg, **kw)
+        elif fn == 'aspect':
+            res = m['aspect'].aspect(agg, **kw)
+        elif fn == 'curvature':
+            res = m['curvature'].curvature(agg, **kw)
+        elif params.get('defaults'):
+            res = m['hillshade'].hillshade(agg, **kw)           # azimuth=225, angle_altitude=25 left at their defaults
+        else:
+            res = m['hillshade'].hillshade(agg, azimuth=params['azimuth'], angle_altitude=params['altitude'], **kw)
+    if kw and res.name != kw['name']:
+        raise AssertionError('%s: result is named %r, asked for %r' % (fn, res.name, kw['name']))
+    return res
 
 
 FNS = ['slope', 'aspect', 'curvature', 'hillshade']
-AZ = [225, 0, 90, 180, 315, 360, 45.5, 270.0, 100]
-ALT = [25, 0, 45, 90, 60.5, 10, 80.0]
+AZ = [225, 0, 90, 180, 315, 360, 45.5, 270.0, 100, -45, -360, 405, 720.5, 1e-3, 359.999, -0.5, 3600]
+ALT = [25, 0, 45, 90, 60.5, 10, 80.0, -10, 120, 180, -90, 1e-3, 89.999, 270.5]
+
+
+def draw_angles(rng):
+    u = rng.random()
+    if u < 0.1:
+        return dict(azimuth=225, altitude=25, defaults=True)        # optional arguments left at their defaults
+    if u < 0.3:
+        p = dict(azimuth=rng.uniform(-720, 720), altitude=rng.uniform(-180, 180))
+    else:
+        p = dict(azimuth=rng.choice(AZ), altitude=rng.choice(ALT))
+    if rng.random() < 0.15:
+        p['name'] = 'out_%d' % rng.randint(0, 9)
+    return p
 
 
 def eq_out(a, b):
@@ -654,7 +708,7 @@ def _well_conditioned(case, y, x, shape):
 def run_case(ctx, m, consts, case, pending, meta=True):
     rng = ctx.rng
     agg = make_agg(case)
-    params = dict(azimuth=rng.choice(AZ), altitude=rng.choice(ALT)) if 'params' not in case else case['params']
+    params = draw_angles(rng) if 'params' not in case else case['params']
     case['params'] = params
     rows = len(case['data'])
     cols = len(case['data'][0]) if rows else 0
@@ -673,7 +727,11 @@ def run_case(ctx, m, consts, case, pending, meta=True):
             continue
         except Exception as e:
             outs[fn] = None
-            ctx.violation('oracle', '%s raised %s: %s' % (fn, type(e).__name__, e), dict(case, fn=fn))
+            key = None
+            if isinstance(e, NotImplementedError) and case['dtype'] == 'float16' and case.get('chunks') is None \
+                    and fn in ('slope', 'aspect'):
+                key = 'float16-numpy-slope-aspect'
+            ctx.violation('oracle', '%s raised %s: %s (dtype %s)' % (fn, type(e).__name__, e, case['dtype']), dict(case, fn=fn), key=key)
             continue
         oracle_raster(ctx, case, fn, out, params)
         if fn == 'hillshade' and case.get('chunks') is not None and (rows < 2 or cols < 2):
@@ -688,8 +746,10 @@ def run_case(ctx, m, consts, case, pending, meta=True):
                 if outs.get(fn) is not None and any(not eq_out(a, b) for ra, rb in zip(o, outs[fn]) for a, b in zip(ra, rb)):
                     ctx.violation('oracle', 'summarize_terrain: %s differs from %s()' % (fn, fn), dict(case, fn='summarize_terrain'))
         except Exception as e:
-            ctx.violation('oracle', 'summarize_terrain raised %s: %s' % (type(e).__name__, e), dict(case, fn='summarize_terrain'))
-    if meta:
+            key = 'float16-numpy-slope-aspect' if (isinstance(e, NotImplementedError) and case['dtype'] == 'float16'
+                                                  and case.get('chunks') is None) else None
+            ctx.violation('oracle', 'summarize_terrain raised %s: %s' % (type(e).__name__, e), dict(case, fn='summarize_terrain'), key=key)
+    if meta and all(outs.get(fn) is not None for fn in FNS):
         metamorphic(ctx, m, case, outs, params)
 
 
@@ -698,13 +758,13 @@ def run_together(ctx, m, consts, case, pending):
     and another raster) evaluated in ONE dask.compute; each compared with the oracle, its NumPy-backed result and the model"""
     import dask
     rng = ctx.rng
-    v0 = dict(case, params=dict(azimuth=rng.choice(AZ), altitude=rng.choice(ALT)))
+    v0 = dict(case, params=draw_angles(rng))
     r0 = case['res']
     if r0['kind'] == 'pair':
         res2 = dict(kind='pair', v=[r0['v'][1] * 2.0, r0['v'][0] * 0.5], form='tuple')
     else:
         res2 = dict(kind='pair', v=[4.0, 0.5], form='tuple')
-    v1 = dict(case, res=res2, params=dict(azimuth=rng.choice(AZ), altitude=rng.choice(ALT)))
+    v1 = dict(case, res=res2, params=draw_angles(rng))
     variants = [v0, v1]
     rows, cols = len(case['data']), len(case['data'][0])
     d2 = [list(r) for r in case['data']]
@@ -740,6 +800,9 @@ def new_case(rng, **kw):
     cols = len(data[0]) if rows else 0
     res, xs, ys, coords = gen_geometry(rng, rows, cols, allow_mixed=(dt == 'float64'), allow_int=(dt in INT_CS_DT))
     case = dict(dtype=dt, kind=kind, data=data, res=res, xs=xs, ys=ys, coords=coords)
+    case['dims'] = rng.choice([['y', 'x'], ['y', 'x'], ['lat', 'lon'], ['row', 'col'], ['x', 'y'], ['northing', 'easting']])
+    if dt in ('float64', 'int32') and rng.random() < 0.25:
+        case['layout'] = rng.choice(['F', 'view', 'neg'])        # memory layouts (extra Numba specialisations: few dtypes)
     case['exact'] = is_exact_class(case)
     return case
 
@@ -759,6 +822,11 @@ def run(ctx, model=True):
             cases.append(c)
     for _ in range(n):
         cases.append(new_case(rng))
+    for kind in (['ramp', 'frac'] if ctx.quick() else ['ramp', 'frac', 'ties', 'special', 'small', 'signed']):
+        cases.append(new_case(rng, dt='float16', shape=(4, 4), kind=kind))
+    for _ in range(1 if ctx.quick() else 40):           # large-ish rasters
+        big = (rng.randint(15, 20), rng.randint(15, 24)) if ctx.quick() else (rng.randint(20, 60), rng.randint(20, 60))
+        cases.append(new_case(rng, dt=rng.choice(['float64', 'float32', 'int32']), shape=big))
     # Dask-backed stream: every dtype (all integer dtypes included) x {single chunk, 1-cell chunks, uneven chunks}
     styles = ['single', 'cells', 'uneven']
     kinds_i = ['ramp', 'ties', 'small', 'big', 'signed']
